@@ -269,6 +269,23 @@ theorem call_error_aborts_pcall_continues_effects_persist
   · rw [runSteps_append, hpre]
     exact runSteps_cons_pcall_err q kq env db now s1 acc1 st rest cmd m hcmd herr hp
 
+/-- A script ended from outside after a prefix `pre` of its steps — what the run-time limit does (a Lua error raised by the
+    count hook between two instructions) — is in exactly the state the complete script would have continued from: the effects
+    of the calls that completed are those of `pre`, nothing is rolled back and nothing else has happened. -/
+theorem script_cut_keeps_prefix_effects
+    (q : Quirks) (kq : KS.Quirks) (env : Env) (db now : Nat) (s s1 : KS.Store) (acc acc1 : List LuaVal) (pre rest : List Step)
+    (hpre : runSteps q kq env db now s acc pre = (s1, .ok acc1)) :
+    runSteps q kq env db now s acc (pre ++ rest) = runSteps q kq env db now s1 acc1 rest := by
+  rw [runSteps_append, hpre]
+
+/-- Tie to the code: what bounds a script's run time (`LuaEngine::eval` installs a count hook that compares the elapsed time with
+    a constant and raises a Lua error).  Either nothing does (0: a non-terminating script wedges the only command thread for
+    ever — finding C12-no-script-time-limit, never probed dynamically), or the bound is between 1 s and 60 s; lib/c12.py then
+    runs non-terminating scripts on dedicated servers and requires the error reply within the bound, the earlier effects in
+    place and the server serving. -/
+theorem script_time_limit_sane :
+    Gen.luaScriptTimeLimit = 0 ∨ (1000 ≤ Gen.luaScriptTimeLimit ∧ Gen.luaScriptTimeLimit ≤ 60000) := by decide
+
 /-- the reply of the aborted script is the error reply, whatever the return expression -/
 theorem aborted_script_replies_error (q : Quirks) (kq : KS.Quirks) (s s' : KS.Store) (db now : Nat)
     (keys argv : List Bytes) (p : Program) (m : Bytes)
